@@ -33,14 +33,13 @@ static inline uint64_t now_ns(void) {
   clock_gettime(CLOCK_MONOTONIC, &ts);
   return (uint64_t)ts.tv_sec * 1000000000ull + (uint64_t)ts.tv_nsec;
 }
-static uint64_t spin_sink;  // written with an atomic store: the monitor must not become the race
 static void* worker(void* arg) {
   thr_t* t = arg;
   pthread_barrier_wait(t->bar);
   // start jitter: outside any library code (the library has no critical sections to place it between)
   uint64_t x = t->jitter;
   for (uint64_t i = 0; i < t->jitter; i++) x = x * 6364136223846793005ull + 1;
-  __atomic_store_n(&spin_sink, x, __ATOMIC_RELAXED);
+  t->jitter = x;  // kept in the thread's own record: the monitor must not become the race
   for (int i = 0; i < t->ncalls; i++) {
     call_t* c = &t->calls[i];
     opres_t r;
